@@ -202,6 +202,43 @@ def r13_2(run):
     ok = gn is not None and cfg.dominates(gn, kn)
     run.ob("R13.2", loc(fi, graphs[0]), fi.short, "DuplicatingGraph construction dominates the kernel call", ok,
            "dominance" if ok else "kernel may run without a placeholder graph to restore")
+    # R13.7: building the DuplicatingGraph re-routes every recorded op through placeholders.  From that statement up to the kernel call, every
+    # call into repository code (view replays, Tensor.copy, graph.get_path_to_base -- which raises KeyError for a view its base has forgotten)
+    # can fail; each must sit inside a try whose handler restores the graph, like the kernel call itself
+    fx = facts(run)
+    protected = set()
+    for t_ in own_nodes(fi.node):
+        if isinstance(t_, ast.Try) and any(isinstance(c_, ast.Call) and isinstance(c_.func, ast.Attribute) and c_.func.attr == "restore_old_graph"
+                                           for h_ in t_.handlers for c_ in ast.walk(h_)):
+            for b_ in t_.body:
+                protected |= {id(x) for x in ast.walk(b_)}
+    after_graph = cfg.reachable_from(gn) if gn is not None else set()
+    before_kernel = {n_ for n_ in cfg.stmt if kn in cfg.reachable_from(n_) or n_ == kn}
+    n_calls = 0
+    bad = None
+    for n_ in sorted(after_graph & before_kernel):
+        st_ = cfg.stmt.get(n_)
+        if st_ is None or n_ == gn:
+            continue
+        from ..cfg import calls_in
+        for c_ in calls_in(st_):
+            r_ = fx.resolve_call(fi, c_)
+            local_callable = isinstance(c_.func, ast.Name) and c_.func.id in fx.local_names(fi)
+            root_ = c_.func
+            while isinstance(root_, ast.Attribute):
+                root_ = root_.value
+            on_graph = isinstance(c_.func, ast.Attribute) and isinstance(root_, ast.Name) and root_.id == gname \
+                and c_.func.attr not in ("restore_old_graph",)  # methods of the placeholder graph and of the tensors it holds
+            if hasattr(r_, "qualname") or local_callable or on_graph:
+                n_calls += 1
+                if id(c_) not in protected and bad is None:
+                    bad = c_
+    run.ob("R13.7", loc(fi, bad if bad is not None else graphs[0]), fi.short,
+           "every repository call between the graph re-routing and the in-place kernel is inside the restoring try", bad is None,
+           f"{n_calls} call(s) into repository code after DuplicatingGraph(...), all inside the try whose handler calls restore_old_graph()" if bad is None else
+           f"`{norm(bad)[:60]}` runs after the recorded ops were re-routed through placeholders but outside the restoring try: if it raises (e.g. KeyError "
+           f"from get_path_to_base for a view its base no longer lists) the ops stay on the placeholders -- the base never receives its gradient, is never "
+           f"cleared and its arrays stay locked")
     rog = run.project.functions.get("mygrad._utils.duplicating_graph.DuplicatingGraph.restore_old_graph")
     if rog is None:
         raise AnalysisError("DuplicatingGraph.restore_old_graph not found")
@@ -348,6 +385,7 @@ def r13_6(run):
 def check(run):
     run.rule("R13.1", "Tensor._op (tracked): no write of input-tensor state (_grad/_view_grad/_base/_ops/_view_children) "
              "precedes a may-raise call", floor=4)
+    run.rule("R13.7", "_in_place_op: every repository call between the graph re-routing and the kernel is inside the restoring try", floor=1)
     run.rule("R13.2", "_in_place_op: kernel call in a try whose handler restores the placeholder graph and re-raises; "
              "mirror_tensor only after the kernel succeeded; kernel target is not the public array", floor=5)
     run.rule("R13.3", "shape setter: validating trial assignment and its undo dominate the graph duplication", floor=3)
